@@ -11,7 +11,8 @@ from harness import vloop
 from harness.c01 import PROTO_CLASS
 from harness.c01_fake import make_session, settle
 from harness.c02 import (_prepare, batch_oracle, classify_member, decode_entry, impl_text,
-                         model_line, normalise_model, random_case, result_for)
+                         model_line, normalise_model, random_case, result_for, single_cases,
+                         single_oracle)
 from tools.facts.common import fresh_import
 
 
@@ -19,7 +20,7 @@ async def run_scenario(mods, case):
     jr, rawsocket, session_mod = mods
     proto = getattr(jr, PROTO_CLASS[case['proto']])
     gates = {}
-    errs = set(case.get('errs', ()))
+    errs = set(case.get('errs', ())) | ({0} if case.get('err') else set())
     seen_notifs = []
 
     class Server(session_mod.RPCSession):
@@ -41,6 +42,10 @@ async def run_scenario(mods, case):
 
     logging.disable(logging.CRITICAL)
     p, transport, session = make_session(rawsocket, Server, session_mod.SessionKind.SERVER)
+    if 'single' in case:
+        rec = await _single(jr, p, transport, session, case, gates, seen_notifs)
+        logging.disable(logging.NOTSET)
+        return rec
     rec = {'raised': None, 'calls': [], 'lens': [], 'exc': None, 'items': None}
     p.data_received(json.dumps(case['members']).encode() + b'\n')
     await settle(10)
@@ -73,6 +78,35 @@ async def run_scenario(mods, case):
     return rec
 
 
+async def _single(jr, p, transport, session, case, gates, seen_notifs):
+    """one request / notification through the serving session: what is written"""
+    rec = {'exc': None, 'reply': None, 'len': 0, 'items': None, 'raised': None}
+    p.data_received(json.dumps(case['single']).encode() + b'\n')
+    await settle(10)
+    first = transport.take_messages()
+    kind = classify_member(case.get('inforce', case['proto']), case['single'])
+    if first:
+        rec['raised'] = decode_entry(first[0])
+    if kind[0] == 'req':
+        inforce = getattr(jr, PROTO_CLASS[case.get('inforce', case['proto'])])
+        result, _ = result_for(jr, 0, case.get('err'))
+        rec['len'] = len(inforce.response_message(result, kind[1]))
+        gates.setdefault(0, asyncio.Event()).set()
+        await settle(10)
+        out = transport.take_messages()
+        if len(out) > 1:
+            rec['exc'] = 'ExtraMessages'
+        rec['items'] = ['r']
+        rec['reply'] = decode_entry(out[0]) if out else None
+    elif kind[0] == 'notif':
+        rec['items'] = ['n'] if seen_notifs else ['?']
+    await settle(4)
+    if transport.take_messages():
+        rec['exc'] = 'LateMessages'
+    await session.close()
+    return rec
+
+
 def _evaluate(ctx, cases, res):
     mods = (fresh_import(ctx.repo, 'aiorpcx.jsonrpc'), fresh_import(ctx.repo, 'aiorpcx.rawsocket'),
             fresh_import(ctx.repo, 'aiorpcx.session'))
@@ -93,15 +127,17 @@ def _evaluate(ctx, cases, res):
         if 'hang' in rec:
             res.violation('c02:session-hang', sc, rec['hang'])
             continue
-        v = batch_oracle(c, rec)
+        v = single_oracle(c, rec) if 'single' in c else batch_oracle(c, rec)
         if v:
             res.violation(v[0] if v[0].startswith('c02:notif-invalid') else v[0] + '@session',
                           sc, v[1], impl=impl_text(c, rec))
         # a batch that raised at the connection never has its notifications processed: the
         # property only speaks about replies, so this is recorded, not judged
-        res.count('session_notifications_handled', rec['notifs_handled'])
-        lines.append(model_line(c, rec))
-        idx.append(k)
+        res.count('session_notifications_handled', rec.get('notifs_handled', 0))
+        line = model_line(c, rec)
+        if line is not None:
+            lines.append(line)
+            idx.append(k)
     model = ctx.model(lines)
     if model is not None:
         for line, out, k in zip(lines, model, idx):
@@ -127,6 +163,8 @@ def run(ctx, res):
         {'proto': 'v2', 'max': 60, 'members': [v2(0, id=1), v2(1, id=1), v2(2, id='a')],
          'order': [2, 0, 1], 'errs': [1]},
     ] + cases
+    singles = single_cases(jr)
+    cases += singles[::(3 if ctx.tier == 'thorough' else 9)]
     _evaluate(ctx, cases, res)
 
 
